@@ -75,4 +75,41 @@ theorem pad_length (m : List UInt8) : (pad m).length = m.length + (rate - m.leng
   · simp [h]
   · simp [h]; omega
 
+/-! injectivity of the padding: the padded string determines the message -/
+theorem snoc_inj {α : Type} (a b : List α) (x y : α) (h : a ++ [x] = b ++ [y]) : a = b ∧ x = y := by
+  have := List.append_inj' h rfl
+  exact ⟨this.1, by simpa using this.2⟩
+
+theorem pad_tail_inj : ∀ (ka kb : Nat) (a b : List UInt8),
+    a ++ [0x01] ++ List.replicate ka 0 = b ++ [0x01] ++ List.replicate kb 0 → a = b := by
+  intro ka
+  induction ka with
+  | zero =>
+    intro kb a b h
+    cases kb with
+    | zero => simp at h; exact h
+    | succ k =>
+      rw [List.replicate_succ', ← List.append_assoc] at h
+      simp only [List.replicate_zero, List.append_nil] at h
+      have := (snoc_inj _ _ _ _ h).2
+      exact absurd this (by decide)
+  | succ k ih =>
+    intro kb a b h
+    cases kb with
+    | zero =>
+      rw [List.replicate_succ', ← List.append_assoc] at h
+      simp only [List.replicate_zero, List.append_nil] at h
+      have := (snoc_inj _ _ _ _ h).2
+      exact absurd this (by decide)
+    | succ k' =>
+      rw [List.replicate_succ', List.replicate_succ', ← List.append_assoc, ← List.append_assoc] at h
+      exact ih k' a b (snoc_inj _ _ _ _ h).1
+
+theorem pad_injective (a b : List UInt8) (h : pad a = pad b) : a = b := by
+  rw [pad_eq a, pad_eq b] at h
+  by_cases ha : a.length % 136 = 135 <;> by_cases hb : b.length % 136 = 135
+  · rw [if_pos ha, if_pos hb] at h; exact (snoc_inj _ _ _ _ h).1
+  · rw [if_pos ha, if_neg hb] at h; exact absurd (snoc_inj _ _ _ _ h).2 (by decide)
+  · rw [if_neg ha, if_pos hb] at h; exact absurd (snoc_inj _ _ _ _ h).2 (by decide)
+  · rw [if_neg ha, if_neg hb] at h; exact pad_tail_inj _ _ a b (snoc_inj _ _ _ _ h).1
 end Keccak
